@@ -1,0 +1,36 @@
+//go:build verif
+
+package dragonboat
+
+import (
+	pb "github.com/lni/dragonboat/v4/raftpb"
+)
+
+// VerifR17Quiesce drives the quiesceState of a replica directly (verification
+// hook, add-only, compiled only with -tags verif).
+type VerifR17Quiesce struct {
+	q quiesceState
+}
+
+// NewVerifR17Quiesce builds the quiesceState the way newNode does.
+func NewVerifR17Quiesce(enabled bool, electionTick uint64) *VerifR17Quiesce {
+	return &VerifR17Quiesce{q: quiesceState{electionTick: electionTick, enabled: enabled, shardID: 1, replicaID: 1}}
+}
+
+// Tick is quiesceState.tick followed by the quiesced() test of node.tick.
+func (v *VerifR17Quiesce) Tick() bool {
+	v.q.tick()
+	return v.q.quiesced()
+}
+
+// Record is quiesceState.record.
+func (v *VerifR17Quiesce) Record(t pb.MessageType) { v.q.record(t) }
+
+// TryEnter is quiesceState.tryEnterQuiesce.
+func (v *VerifR17Quiesce) TryEnter() { v.q.tryEnterQuiesce() }
+
+// TakeFlag is quiesceState.newQuiesceState.
+func (v *VerifR17Quiesce) TakeFlag() bool { return v.q.newQuiesceState() }
+
+// Quiesced is quiesceState.quiesced.
+func (v *VerifR17Quiesce) Quiesced() bool { return v.q.quiesced() }
